@@ -656,6 +656,8 @@ class OpsMixin:
         obj = self.val(obj)
         t = static_tag(obj)
         if t is None and self.spec_mode:
+            t = self.tagcache.get(obj.sexpr())       # a type already established on this path (parameter annotation, typed())
+        if t is None and self.spec_mode:
             iv = z3.simplify(self.as_int(idx)) if (is_val(idx) and static_tag(idx) == 'VInt') else None
             t = 'VTup' if (iv is not None and z3.is_int_value(iv)) else 'VRef'
         if t is None:
